@@ -263,10 +263,10 @@ PARTS = [
     Part("reject", enumerate=_enum_reject, exhaustive=True, quick_shards=2),
     Part("constellation", _constellation_st, quick=400, thorough=20000,
          quick_shards=2),
-    Part("roundtrip", _roundtrip_st, quick=1600, thorough=100000),
+    Part("roundtrip", _roundtrip_st, quick=1600, thorough=60000),
     Part("badindex", lambda tier: _roundtrip_st(tier, bad=True), quick=400,
          thorough=20000, quick_shards=2),
-    Part("detect", _detect_st, quick=4800, thorough=300000, quick_shards=8),
+    Part("detect", _detect_st, quick=4800, thorough=150000, quick_shards=8),
 ]
 
 
